@@ -63,7 +63,7 @@ def handleBpe (ws : List String) : String :=
     match parseMerges mS with
     | none => "bad-request"
     | some merges =>
-      let eow : Option String := if eS == "-" then none else some eS
+      let eow : Option String := normEow (if eS == "-" then none else some (tok eS))
       let ign : Bool := field ws "I" == some "1"
       let vc? : Option Vocab := if vS == "auto" then some (buildVocabFull merges eow) else parseVocab vS
       match vc? with
@@ -72,7 +72,8 @@ def handleBpe (ws : List String) : String :=
         match buildMergeMap (vDom vc) (vId vc) (· ++ ·) merges with
         | .error _ => "err:merge"
         | .ok m =>
-          if aS != "-" && aS.toList.any (fun c => !(vDom vc (String.singleton c))) then "err:vocab" else
+          if (aS != "-" && aS.toList.any (fun c => !(vDom vc (String.singleton c))))
+              || (vS == "auto" && missingByteEntry vc) then "err:vocab" else
           let outs := pieces.map (fun p =>
             if p.isEmpty then some [] else encodePieceBytes vc m eow ign p)
           if outs.any Option.isNone then "skip" else
